@@ -29,7 +29,7 @@ def canary_forgotten(traces):
 
 def run(tier):
     return run_queue_prop(
-        'C12', tier, ['b', 'd23'] if tier == 'quick' else ['b', 'c0', 'd23'], [canary_early, canary_forgotten],
+        'C12', tier, ['b', 'ann', 'd23', 'd23l'] if tier == 'quick' else ['b', 'ann', 'c0', 'd23', 'd23l'], [canary_early, canary_forgotten],
         rule='started queue under virtual time; DFS over enqueue / relay completion / timer expiry / flush / storage-call '
              'release orders with bounded and unbounded store and relay pools, backoff 0, 3, 5 and equal due times, '
              'plus random walks; non-trivial = at least one retry timer armed or a flush call',
